@@ -6,3 +6,7 @@ import PhyloModel.Props.C11
 #print axioms C11.compress_keeps_path_lengths
 #print axioms C11.rescale_every_length
 #print axioms C11.ladderize_sorts
+#print axioms C11.compress_postcondition
+#print axioms C11.resolve_postcondition
+#print axioms C11.ladderize_only_reorders
+#print axioms C11.edits_keep_invariant
